@@ -158,6 +158,13 @@ pub fn run(args: &Args) {
                                 (*c.get_col_num(), *c.get_row_num(), *c.get_is_lock_col(), *c.get_is_lock_row(), c.get_coordinate())
                             });
                             cx.obs("coord.struct", &exp, st == Ok((col, row, lc, lr, exp.clone())), || format!("Coordinate({}) -> {:?}", exp, st));
+                            // the other way a coordinate is printed: to_string()
+                            let disp = guard(|| {
+                                let mut c = Coordinate::default();
+                                c.set_coordinate(&exp);
+                                c.to_string()
+                            });
+                            cx.obs("coord.display", &exp, disp.as_deref() == Ok(exp.as_str()), || format!("Coordinate({}).to_string() -> {:?}", exp, disp));
                         }
                     }
                     if row % 16 == 1 + shard % 16 {
